@@ -545,6 +545,15 @@ def pre_validation_dereference(ctx, chk, rule, f, tr):
                     continue
                 objs = pt.ev(target, h)
                 deep = [o for o in objs if o[0] == "in" and o[2] >= 1]
+                if not deep and isinstance(target, ast.Name):
+                    # the element variable of a comprehension / generator over one of the game's lists
+                    q_ = node
+                    while q_ is not None and not deep:
+                        q_ = getattr(q_, "parent", None)
+                        if isinstance(q_, (ast.ListComp, ast.GeneratorExp, ast.SetComp, ast.DictComp)):
+                            for gen in q_.generators:
+                                if any(isinstance(x, ast.Name) and x.id == target.id for x in ast.walk(gen.target)):
+                                    deep = [("in", o[1], o[2] + 1) for o in pt.ev(gen.iter, h) if o[0] == "in"]
                 if not deep:
                     continue
                 n += 1
@@ -597,6 +606,13 @@ def _type_guarded(node, target):
             for c in ast.walk(p.test):
                 if isinstance(c, ast.Call) and call_name(c) == "isinstance" and c.args and src(c.args[0]) == t:
                     return True
+        if isinstance(p, (ast.ListComp, ast.GeneratorExp, ast.SetComp, ast.DictComp)):
+            # `f(x) for x in xs if isinstance(x, list)`: the filter of the generator that binds x guards the element expression
+            for gen in p.generators:
+                for cond in gen.ifs:
+                    for c in ast.walk(cond):
+                        if isinstance(c, ast.Call) and call_name(c) == "isinstance" and c.args and src(c.args[0]) == t:
+                            return True
         n = p
     return False
 
